@@ -200,7 +200,7 @@ def _limits():
     resource.setrlimit(resource.RLIMIT_CORE, (0, 0))
 
 
-def run_impl(lines, timeout=900):
+def run_impl(lines, timeout=240):
     """lines: '<suite> <sx>'; routed to the debug or release binary by the case's profile field."""
     idx = {0: [], 1: []}
     for i, l in enumerate(lines):
@@ -217,15 +217,19 @@ def run_impl(lines, timeout=900):
 
 
 def _resolve_aborts(binary, lines, res, timeout):
+    """cases behind a worker that died (abort, OOM, hang) are re-run in fresh workers, a few rounds, short timeout;
+    what is still unattributed afterwards is reported as (9 -100)"""
     pending = [i for i, r in enumerate(res) if r == "(8)"]
     rounds = 0
-    while pending and rounds < 50:
+    while pending and rounds < 8:
         rounds += 1
         sub = [lines[i] for i in pending]
-        got = _run_sharded(binary, sub, timeout)
+        got = _run_sharded(binary, sub, min(timeout, 60))
         for i, g in zip(pending, got):
             res[i] = g
         pending = [i for i, r in enumerate(res) if r == "(8)"]
+    for i in pending:
+        res[i] = "(9 -100)"
     return res
 
 
